@@ -1515,9 +1515,14 @@ void SPxMainSM<R>::AggregationPS::execute(VectorBase<R>& x, VectorBase<R>& y, Ve
          cStatus[active_idx] = SPxSolverBase<R>::ON_UPPER;
    }
 
-   if(((cStatus[active_idx] == SPxSolverBase<R>::ON_UPPER
-         || cStatus[active_idx] == SPxSolverBase<R>::FIXED)
-         && NE(x[active_idx], m_oldupper, this->feastol())) ||
+   // x_k may also sit at one of its original bounds with a reduced cost of the wrong sign: then it is not that bound
+   // which holds it there but the bound of x_j, implied through the aggregation, and x_k has to enter the basis as well
+   bool wrongSign = (cStatus[active_idx] == SPxSolverBase<R>::ON_LOWER && r[active_idx] < -this->feastol())
+                    || (cStatus[active_idx] == SPxSolverBase<R>::ON_UPPER && r[active_idx] > this->feastol());
+
+   if(wrongSign || ((cStatus[active_idx] == SPxSolverBase<R>::ON_UPPER
+                     || cStatus[active_idx] == SPxSolverBase<R>::FIXED)
+                    && NE(x[active_idx], m_oldupper, this->feastol())) ||
          ((cStatus[active_idx] == SPxSolverBase<R>::ON_LOWER
            || cStatus[active_idx] == SPxSolverBase<R>::FIXED)
           && NE(x[active_idx], m_oldlower, this->feastol())))
